@@ -90,7 +90,7 @@ def literal(v):
         return ("-" if c < 0 else "") + s
     if t == "str":
         s = "".join(v["s"])
-        return None if ("'" in s or "\n" in s) else "'" + s + "'"
+        return None if any(ch in s for ch in "'\n\t") else "'" + s + "'"
     if t == "bool":
         return "true" if v["b"] else "false"
     if t == "nil":
@@ -350,6 +350,7 @@ def run(tier: str) -> int:
     ck.cov["deviations_refuted"] = dev_ok
     ck.cov["phase_s"] = {"tlc": round(time.time() - t0, 1)}
     t1 = time.time()
+    ck.cov["cells"] = len(cells)
     if bad:
         return ck.finish()
     if tier == "thorough" and len(cells) > 260000:
